@@ -12,13 +12,25 @@ From intf/serial.py (class SerialDevice):
   dropAllPolls     `drop_all`: `cntr = <n>; while cntr > 0: ret = self._read(); if not ret: cntr -= 1`
   readTimeout / writeTimeout   `timeout=` / `write_timeout=` of the `serial.Serial(…)` call, in tenths of a
                    second (`none` = no timeout = a blocking port)
+  openArgs         the EXACT set of pyserial settings the `serial.Serial(…)` call passes (positional arguments
+                   mapped to pyserial's parameter names, keywords by name), sorted
+  openDataBits / openParity / openStopBits / openXonXoff / openRtsCts / openDsrDtr
+                   the line settings a `SerialDevice(port)` built with its DEFAULT arguments opens the port with:
+                   a literal in the call, or the literal default of the `__init__` parameter handed through, or —
+                   when the call does not pass the setting — pyserial's own default (8, "N", 1, False, False, False)
+  serAttrs         every attribute of the port object `self._ser` the class touches, anywhere (sorted)
+  serHandleShape   `self._ser` occurs only as `self._ser.<attr>` (read, never an assignment / deletion target),
+                   as the test of an `assert` / `if`, and as the target of `self._ser = serial.Serial(…)` /
+                   `self._ser = None` inside `__init__`: the port object is never aliased, handed to other code,
+                   replaced or reconfigured after it was opened
 From intf/iintf.py (CommInterfaceCommon / ICommInterface):
   writeAligns      `write` hands `self.data_align(data)` to `self._fwrite`, and nothing else
   readIsFread      `read` returns the result of `self._fread()` unchanged
   wiring           `_fread`/`_fwrite` are the constructor arguments and ICommInterface passes `self._read`,
                    `self._write`
 
-Unknown shape ⇒ `translator_site_missing_SerialIntf_<what>` (the generated file does not compile).
+Unknown shape ⇒ `translator_site_missing_SerialIntf_<what>` (the generated file does not compile; for the Bool facts
+and the port-settings facts the definition gets a value no theorem accepts instead, so that the driver still builds).
 """
 from __future__ import annotations
 
@@ -178,6 +190,149 @@ def gen_serialintf(repo):
         return "none"   # pyserial default: no timeout (blocking)
     o.d("readTimeout", "Option Nat", lambda: timeout("timeout"), "tenths of a second; none = blocking port")
     o.d("writeTimeout", "Option Nat", lambda: timeout("write_timeout"))
+
+    # ---- how the port is opened ---------------------------------------------------------------------------
+    # pyserial 3.5: Serial.__init__(self, port=None, baudrate=9600, bytesize=8, parity='N', stopbits=1, timeout=None,
+    #               xonxoff=False, rtscts=False, write_timeout=None, dsrdtr=False, inter_byte_timeout=None, exclusive=None)
+    PYSERIAL_ORDER = ["port", "baudrate", "bytesize", "parity", "stopbits", "timeout", "xonxoff", "rtscts",
+                      "write_timeout", "dsrdtr", "inter_byte_timeout", "exclusive"]
+    PYSERIAL_DEFAULT = {"bytesize": 8, "parity": "N", "stopbits": 1, "xonxoff": False, "rtscts": False, "dsrdtr": False}
+
+    def open_call():
+        f = sfunc("__init__")
+        calls = [n for n in ast.walk(f) if isinstance(n, ast.Call) and unparse(n.func) == "serial.Serial"]
+        if len(calls) != 1:
+            raise Missing("__init__: exactly one serial.Serial(…) call")
+        c = calls[0]
+        if any(isinstance(a, ast.Starred) for a in c.args) or any(k.arg is None for k in c.keywords):
+            raise Missing("__init__: serial.Serial(…) called with *args / **kwargs")
+        if len(c.args) > len(PYSERIAL_ORDER):
+            raise Missing("__init__: too many positional arguments in serial.Serial(…)")
+        given = {}
+        for name, a in zip(PYSERIAL_ORDER, c.args):
+            given[name] = a
+        for k in c.keywords:
+            if k.arg in given:
+                raise Missing(f"__init__: serial.Serial(…) gets {k.arg} twice")
+            given[k.arg] = k.value
+        # defaults of the constructor's own parameters
+        a = f.args
+        if a.vararg or a.kwarg:
+            raise Missing("__init__: *args / **kwargs in the signature of SerialDevice.__init__")
+        names = [x.arg for x in a.posonlyargs + a.args]
+        defaults = dict(zip(names[len(names) - len(a.defaults):], a.defaults))
+        for x, d in zip(a.kwonlyargs, a.kw_defaults):
+            names.append(x.arg)
+            if d is not None:
+                defaults[x.arg] = d
+        # a parameter handed through must not be rebound before the call
+        rebound = {unparse(t) for n in ast.walk(f) if isinstance(n, (ast.Assign, ast.AugAssign, ast.AnnAssign))
+                   for t in (n.targets if isinstance(n, ast.Assign) else [n.target])}
+        return given, names, defaults, rebound
+
+    def setting(name):
+        """the value of a pyserial setting when SerialDevice is built with its default arguments"""
+        given, names, defaults, rebound = open_call()
+        if name not in given:
+            return PYSERIAL_DEFAULT[name]
+        e = given[name]
+        if isinstance(e, ast.Name) and e.id in names:
+            if e.id in rebound:
+                raise Missing(f"__init__: parameter {e.id} is reassigned before it reaches serial.Serial(…)")
+            if e.id not in defaults:
+                raise Missing(f"__init__: {name}={e.id} has no default (the caller decides)")
+            e = defaults[e.id]
+        if not isinstance(e, ast.Constant):
+            raise Missing(f"__init__: {name} is not a literal or a parameter with a literal default: " + unparse(e)[:40])
+        return e.value
+
+    def port_fact(name, typ, fn, sentinel, note=""):
+        """like Out.d, but a site that is gone gets a value no theorem accepts (the module still compiles)"""
+        try:
+            val = fn()
+            o.facts[name] = val
+        except Missing as e:
+            val = f"{sentinel}  -- translator_site_missing_SerialIntf_{name}  -- {e}"
+            o.facts[name] = None
+            note = ""
+        o.raw(f"def {name} : {typ} := {val}" + (f"  -- {note}" if note else ""))
+
+    def lean_str(x):
+        if not isinstance(x, str) or not x.isascii() or not x.isprintable() or '"' in x or "\\" in x:
+            raise Missing("not a plain string literal: " + repr(x)[:40])
+        return '"' + x + '"'
+
+    def open_args():
+        given = open_call()[0]
+        return "[" + ", ".join(lean_str(k) for k in sorted(given)) + "]"
+    port_fact("openArgs", "List String", open_args, '["?"]', "pyserial settings passed by the serial.Serial(…) call")
+
+    def nat_setting(name):
+        v = setting(name)
+        if isinstance(v, bool) or not isinstance(v, int) or v < 0:
+            raise Missing(f"__init__: {name} = {v!r} is not a natural number")
+        return str(v)
+
+    def bool_setting(name):
+        v = setting(name)
+        if not isinstance(v, bool):
+            raise Missing(f"__init__: {name} = {v!r} is not True / False")
+        return "true" if v else "false"
+    port_fact("openDataBits", "Nat", lambda: nat_setting("bytesize"), "0", "data bits with the default arguments")
+    port_fact("openParity", "String", lambda: lean_str(setting("parity")), '"?"', "parity with the default arguments")
+    port_fact("openStopBits", "Nat", lambda: nat_setting("stopbits"), "0", "stop bits with the default arguments")
+    port_fact("openXonXoff", "Bool", lambda: bool_setting("xonxoff"), "true", "software flow control")
+    port_fact("openRtsCts", "Bool", lambda: bool_setting("rtscts"), "true", "RTS/CTS hardware flow control")
+    port_fact("openDsrDtr", "Bool", lambda: bool_setting("dsrdtr"), "true", "DSR/DTR hardware flow control")
+
+    # ---- the port object is only used, never reconfigured ------------------------------------------------------
+    def ser_uses():
+        """(sorted attribute names, shape ok?) over every occurrence of `self._ser` in the class"""
+        if S is None:
+            raise Missing("intf/serial.py: " + s_err)
+
+        def is_ser(n):
+            return (isinstance(n, ast.Attribute) and n.attr == "_ser" and isinstance(n.value, ast.Name)
+                    and n.value.id == "self")
+        parent = {}
+        for n in ast.walk(S):
+            for ch in ast.iter_child_nodes(n):
+                parent[ch] = n
+        init = find_func(S, "__init__")
+        init_nodes = set(ast.walk(init))
+        attrs = set()
+        for n in ast.walk(S):
+            if not is_ser(n):
+                continue
+            p = parent.get(n)
+            if isinstance(p, ast.Attribute) and p.value is n:
+                if not isinstance(p.ctx, ast.Load):
+                    raise Missing(f"self._ser.{p.attr} is assigned or deleted")
+                attrs.add(p.attr)
+            elif isinstance(p, (ast.Assert, ast.If)) and p.test is n:
+                pass
+            elif (isinstance(p, ast.Assign) and len(p.targets) == 1 and p.targets[0] is n and n in init_nodes
+                  and ((isinstance(p.value, ast.Constant) and p.value.value is None)
+                       or (isinstance(p.value, ast.Call) and unparse(p.value.func) == "serial.Serial"))):
+                pass
+            else:
+                raise Missing("self._ser is used other than as self._ser.<attr>: " + unparse(p)[:60])
+        # the name is not reached in another way either
+        for n in ast.walk(S):
+            if isinstance(n, ast.Constant) and n.value == "_ser":
+                raise Missing("the string '_ser' occurs in the class (getattr / setattr)")
+            if isinstance(n, ast.Call) and unparse(n.func) in ("setattr", "delattr", "vars", "object.__setattr__") \
+                    or isinstance(n, ast.Attribute) and n.attr == "__dict__":
+                raise Missing("setattr / vars / __dict__ used in the class")
+        return sorted(attrs)
+
+    port_fact("serAttrs", "List String", lambda: "[" + ", ".join(lean_str(a) for a in ser_uses()) + "]", '["?"]',
+              "attributes of self._ser touched anywhere in the class")
+
+    def ser_shape():
+        ser_uses()
+        return "true"
+    o.d("serHandleShape", "Bool", ser_shape, "self._ser only read as self._ser.<attr>; assigned only in __init__")
 
     # ---- iintf.py ---------------------------------------------------------------------------------------
     def write_aligns():
